@@ -4,6 +4,7 @@ import PqModel.MergeRanges
 import PqModel.Compare
 import PqModel.MergeRefine
 import PqModel.MergeZero
+import PqModel.MergeRetry
 
 namespace Driver.Ops.C09
 open Driver PqModel.Merge PqModel.Compare
@@ -56,7 +57,8 @@ def parsePage? (s : String) : Option PqModel.Refine.PageStat :=
     | _, _ => none
   | _ => none
 
-/-- `<numRows>~<pages of col 0>~…~F<first row indexes>`; pages `min_max_flag` comma separated -/
+/-- `<numRows>~<pages of col 0>~…~F<first row indexes>[~I]`; pages `min_max_flag` comma separated;
+    `I` = the row group interleaves the rows of its chunks (merged row group) -/
 def parseTarget? (idx : Nat) (s : String) : Option PqModel.Refine.Target :=
   match s.splitOn "~" with
   | [] => none
@@ -64,10 +66,12 @@ def parseTarget? (idx : Nat) (s : String) : Option PqModel.Refine.Target :=
     match parseNat? n with
     | none => none
     | some n =>
+      let il := rest.contains "I"
+      let rest := rest.filter (fun x => x != "I")
       let cols := rest.filter (fun x => !x.startsWith "F")
       let firsts := rest.filter (fun x => x.startsWith "F")
       match cols.mapM (parseList? parsePage?), firsts.mapM (fun x => parseList? parseNat? (x.drop 1).toString) with
-      | some cols, some fr => some { idx := idx, numRows := n, cols := cols, firstRows := fr.headD [] }
+      | some cols, some fr => some { idx := idx, numRows := n, cols := cols, firstRows := fr.headD [], interleaved := il }
       | _, _ => none
 
 def showRow (r : Row) : String := s!"{r.inp}:{r.seq}"
@@ -87,6 +91,17 @@ def handle (toks : List String) : Option String :=
       let r := Reader.new (tagInputs ins) rs
       let res := sessionS r bs
       s!"ok {if res.2.2 then 1 else 0} {"|".intercalate (res.1.map showBatch)} {showList toString res.2.1}"
+    | _, _, _ => "bad-op"
+  | ["merge.runr", ins, bs, rs] => some <|
+    -- refill streams with `(0, nil)` answers (entry 0): the retry loop of `read` skips them
+    -- (MergeRetry.lean `readE_squash`), the session runs on the squashed streams
+    match parseLists? parseInt? ins, parseList? parseNat? bs, parseLists? parseNat? rs with
+    | some ins, some bs, some rs =>
+      if rs.any (fun l => !(decide (∀ i, i < l.length → zeroRun (l.drop i) ≤ 100))) then "stall"
+      else
+        let r := Reader.new (tagInputs ins) (rs.map squashSizes)
+        let res := sessionS r bs
+        s!"ok {if res.2.2 then 1 else 0} {"|".intercalate (res.1.map showBatch)} {showList toString res.2.1}"
     | _, _, _ => "bad-op"
   | ["merge.runz", ins, bs, rs] => some <|
     match parseLists? parseInt? ins, parseList? parseNat? bs, parseLists? parseNat? rs with
